@@ -264,6 +264,21 @@ Definition example_stv2 : stv_election :=
 Example C19_example_stv2_wf : stv_wf env1 example_stv2 = true /\ candidate_nicks env1 [s_ann; s_zoe] = [[97; 98]; [122; 115; 106]].
 Proof. vm_compute. split; reflexivity. Qed.
 
+(* known finding C19-stv-name-chars (format limitation, delimits stv_wf): header lines have no escaping - a title with
+   '#' is cut there, a name with leading white space loses it; the faithful model reproduces both *)
+Definition s_a_hash_b : str := Eval compute in codes "a#b".
+Definition s_lead : str := Eval compute in codes " lead".
+Theorem C19_stv_name_chars_refuted : exists e x ls y,
+  stv_wf env1 e = false /\ stv_expected env1 e = Some x /\ stv_dump_lines env1 false e = WOk ls /\
+  stv_load_lines env1 false (fun _ => ParseError) ls = Ok y /\
+  fst (l_system x) = Some s_a_hash_b /\ fst (l_system y) = Some [97] /\
+  l_cands x = [(s_lead, false)] /\ l_cands y = [(tl s_lead, false)].
+Proof.
+  exists {| e_votes := [([1]%positive, WQ (2 # 1))]; e_system := SysVS (Some s_a_hash_b) (EvTV false false (-1) true (QNamed s_droop) false);
+            e_cands := [(1%positive, s_lead, false)]; e_seats := None; e_output_method := true |}.
+  eexists. eexists. eexists. vm_compute. repeat split.
+Qed.
+
 (* The tree before the repairs (model flag legacy = true) violates both clauses; each witness is replayed on the
    implementation by the corpus (corpus/C19/stv-legacy-*.json), the defects are repaired by fixes/C19-stv-*.diff *)
 Theorem C19_stv_title_none_legacy_refuted : exists e x ls y,
@@ -329,6 +344,7 @@ Print Assumptions C19_stv_prefix_stable.
 Print Assumptions C19_stv_truncation.
 Print Assumptions C19_stv_rankings_complete.
 Print Assumptions C19_stv_blt_mode.
+Print Assumptions C19_stv_name_chars_refuted.
 Print Assumptions C19_stv_title_none_legacy_refuted.
 Print Assumptions C19_stv_isdigit_legacy_refuted.
 Print Assumptions C19_stv_blt_seats_legacy_refuted.
